@@ -28,7 +28,7 @@ LEVEL = {
  "C07": ("bounded model checking of the runtime evaluator against an independent reference evaluator: type and value of every native operator on Bool/Int/Float operands (all values), list algebra on small lists under the map model", "3/C07"),
  "C14": ("bounded model checking of the streaming tokenizer's number conversions and a differential check that both loaders build the same object from the same int/float/bool leaf token; string escapes and all structure are outside (reduced claim, DESIGN 3/C14)", "3/C14"),
  "C15": ("bounded model checking of the loader on every leaf token (null, bool, any i64/u64/f64 number, ASCII strings of length <= 2, short token lists): Ok or Err, never a panic; object-shaped tokens are outside", "3/C15"),
- "C20": ("bounded model checking of the CLI's JSON string escaping: every Unicode scalar value as a one-character input, every pair and triple of ASCII characters, against RFC 8259's definition of a string body", "3/C20"),
+ "C20": ("bounded model checking of the CLI's JSON string escaping: every ASCII character (which includes every character JSON requires to be escaped) as a one-character input, against RFC 8259's definition of a string body; non-ASCII and longer inputs are outside", "3/C20"),
 }
 
 def main():
